@@ -793,4 +793,67 @@ def equalLenOK (L : Nat) (is : List Inter) (kw : List (Char × NsVal)) : Bool :=
   && !hasDup ((dedupFirst (strTerms is)).map canonTerm)
   && (decide (constant is = 0) || decide (5 % L ≠ 0))
 
+/-! ## Phase 6: ownership histories — what the CALLER does with the objects it shares with one encoder
+
+`__init__` builds its own lists from the term list it is given (`str_interactions`, `num_interactions` are
+comprehensions; `_cross_pows`, `_ns_max_pow`, `_constant` are computed from them), and every `encode` call returns a
+newly built list / dict (`sum(val_crosses,[])`, `[const] + …`, `dict(zip(…))`). So nothing the caller does to the term
+list it passed, to the arguments it passed, or to a result it was handed can reach the encoder. The model makes the
+sharing explicit: `OwnCfg.copyTerms = false` is an encoder that KEEPS the caller's list (reads it at call time). -/
+
+/-- one step of the caller around one encoder object -/
+inductive OwnOp where
+  /-- `enc.encode(**kw)`; the result is handed to the caller (a new slot of `OwnState.results`) -/
+  | encode (kw : List (Char × NsVal))
+  /-- the caller overwrites the result it was handed by call number `slot` -/
+  | editResult (slot : Nat) (o : Out)
+  /-- the caller changes, in place, the list it passed to the constructor -/
+  | editTerms (is : List Inter)
+
+structure OwnCfg where
+  /-- the constructor builds its own lists (the code does) -/
+  copyTerms : Bool
+
+structure OwnState where
+  /-- the encoder's own term lists, built by the constructor -/
+  encTerms : List Inter
+  /-- the caller's list object (the one it passed to the constructor) -/
+  callerTerms : List Inter
+  /-- the results the caller holds, in the order of the calls -/
+  results : List (Except Err Out)
+
+def OwnState.init (is : List Inter) : OwnState := ⟨is, is, []⟩
+
+/-- the terms an `encode` call reads -/
+def OwnState.termsRead (oc : OwnCfg) (s : OwnState) : List Inter :=
+  if oc.copyTerms then s.encTerms else s.callerTerms
+
+/-- one step: the new state and, for an `encode` step, the value returned -/
+def OwnState.step (oc : OwnCfg) (cfg : Cfg) (s : OwnState) : OwnOp → OwnState × Option (Except Err Out)
+  | .encode kw =>
+    let r := encode cfg (s.termsRead oc) kw
+    ({ s with results := s.results ++ [r] }, some r)
+  | .editResult k o => ({ s with results := s.results.set k (.ok o) }, none)
+  | .editTerms is => ({ s with callerTerms := is }, none)
+
+/-- a whole history from a given state: the values RETURNED by the `encode` steps, in order, and the final state -/
+def ownRunFrom (oc : OwnCfg) (cfg : Cfg) : OwnState → List OwnOp → List (Except Err Out) × OwnState
+  | s, [] => ([], s)
+  | s, op :: ops =>
+    let (s', r) := s.step oc cfg op
+    let (rs, sf) := ownRunFrom oc cfg s' ops
+    (match r with | some x => x :: rs | none => rs, sf)
+
+def ownRun (oc : OwnCfg) (cfg : Cfg) (is : List Inter) (ops : List OwnOp) : List (Except Err Out) × OwnState :=
+  ownRunFrom oc cfg (OwnState.init is) ops
+
+/-- the keyword arguments of the `encode` steps of a history, in order -/
+def ownCalls : List OwnOp → List (List (Char × NsVal))
+  | [] => []
+  | .encode kw :: ops => kw :: ownCalls ops
+  | _ :: ops => ownCalls ops
+
+/-- the code as it is: the constructor copies -/
+def OwnCfg.code : OwnCfg := ⟨true⟩
+
 end Coba.C20
